@@ -92,9 +92,14 @@ def sequential_traces(ctx: Ctx, rnd: random.Random, ntraces: int, maxlen: int) -
 
     def rnd_instant():
         c = rnd.random()
-        if c < 0.15:
-            return imin + rnd.randint(0, 5)
+        if c < 0.2:
+            # an instant that is exactly (or 1 ns off) local midnight at one of the offsets the zoned reads below use
+            off = rnd.choice([0, 3600, -3600, 64800, -64800, 19800])
+            ns = rnd.randint(imin // proj.NPD + 2, imax // proj.NPD - 2) * proj.NPD + (-off * 10**9) % proj.NPD + rnd.choice([-1, 0, 0, 0, 1])
+            return ns
         if c < 0.3:
+            return imin + rnd.randint(0, 5)
+        if c < 0.4:
             return imax - rnd.randint(0, 5)
         return rnd.randint(imin, imax)
 
@@ -196,8 +201,14 @@ def sequential_traces(ctx: Ctx, rnd: random.Random, ntraces: int, maxlen: int) -
                         riv = getattr(zone, "_CachedDateTimeZone__time_zone", zone).get_zone_interval(nowi)
                         off = riv.wall_offset.seconds
                         ev["iv"] = {"start": _t3i(riv._raw_start), "end": _t3i(riv._raw_end), "wall": off}
+                        ev["peek"] = proj.t3_instant(nowi)       # the value the reference interval was looked up for
                     except Exception:  # noqa: BLE001
                         zone = DateTimeZone.for_offset(Offset.from_seconds(off))
+                if "iv" not in ev and rnd.random() < 0.3:
+                    # put the clock on (or 1 ns around) local midnight of this offset first: the date carry of the rendering is exact there
+                    ns0 = rnd.randint(imin // proj.NPD + 2, imax // proj.NPD - 2) * proj.NPD + (-off * 10**9) % proj.NPD + rnd.choice([-1, 0, 0, 0, 1])
+                    clock.reset(_mk_instant(ns0))
+                    events.append({"t": t, "op": "reset", "i": proj.t3_from_ns(ns0)})
                 # three ways to the same ZonedClock: the constructor, IClock.in_zone, and (UTC + ISO only) IClock.in_utc
                 zroute = rnd.randrange(3)
                 if zroute == 2 and "iv" not in ev and rnd.random() < 0.5:
